@@ -80,21 +80,64 @@ MayMark(c, i, j) ==   \* matrix coordinates
     \/ i = L1(c) /\ j > L2(c) - c.psi[4] /\ c.psi[4] > 0
     \/ j = L2(c) /\ i > L1(c) - c.psi[2] /\ c.psi[2] > 0
 
+\* A border cell (row 0 or column 0 of the matrix) that no in-band cell reads carries no
+\* information: the Python engine writes the psi prologue there, the compact C layout does not
+\* store it.  Both values are accepted for such cells.
+BorderUnread(c, i, j) ==
+    \* matrix cell (0, j) is read by the series cells (0, j) and (0, j-1); (i, 0) by (i, 0) and (i-1, 0)
+    \/ i = 0 /\ j >= 1 /\ ~CellInBand(c, 0, j) /\ ~CellInBand(c, 0, j - 1)
+    \/ j = 0 /\ i >= 1 /\ ~CellInBand(c, i, 0) /\ ~CellInBand(c, i - 1, 0)
+CellFree(c, i, j, got) == BorderUnread(c, i, j) /\ got \in {0, -1}
+
 MatrixOK(c, M, got, psineg) ==
     /\ Len(got) = L1(c) + 1
     /\ \A i \in 0..L1(c) :
          /\ Len(got[i + 1]) = L2(c) + 1
          /\ \A j \in 0..L2(c) :
-              CellAllowed(c, M[i + 1][j + 1], got[i + 1][j + 1], psineg /\ MayMark(c, i, j))
+              \/ CellAllowed(c, M[i + 1][j + 1], got[i + 1][j + 1], psineg /\ MayMark(c, i, j))
+              \/ CellFree(c, i, j, got[i + 1][j + 1])
+
+\* marks are a suffix of the relaxed part of the last row (or last column): the cells after the
+\* chosen end point; the chosen end point itself carries the returned distance
+MarksOK(c, got, d) ==
+    LET l1 == L1(c)
+        l2 == L2(c)
+        R == {j \in 0..l2 : got[l1 + 1][j + 1] = -4}
+        K == {i \in 0..l1 : got[i + 1][l2 + 1] = -4}
+    IN /\ R # {} => R = SetMin(R)..l2
+       /\ K # {} => K = SetMin(K)..l1
+       /\ (R \cup K # {} /\ d >= 0) =>
+            \/ R # {} /\ SetMin(R) >= 1 /\ got[l1 + 1][SetMin(R)] = d
+            \/ K # {} /\ SetMin(K) >= 1 /\ got[SetMin(K)][l2 + 1] = d
+
+\* a slice [rb:re, cb:ce] of the expanded matrix (matrix coordinates)
+SliceOK(c, M, sl) ==
+    LET rb == sl.r[1]
+        re == sl.r[2]
+        cb == sl.r[3]
+        ce == sl.r[4]
+    IN /\ Len(sl.mat) = re - rb
+       /\ \A i \in rb..(re - 1) :
+            /\ Len(sl.mat[i - rb + 1]) = ce - cb
+            /\ \A j \in cb..(ce - 1) :
+                 \/ CellAllowed(c, M[i + 1][j + 1], sl.mat[i - rb + 1][j - cb + 1], sl.neg /\ MayMark(c, i, j))
+                 \/ CellFree(c, i, j, sl.mat[i - rb + 1][j - cb + 1])
 
 JudgeWps(rec) ==
     LET c == rec.c
         M == OptMatrix(c)
         e == Enc(Thresholded(c, OptOf(c, M)))
-        badm == {r \in 1..Len(rec.mat) : ~MatrixOK(c, M, rec.mat[r], rec.psineg)}
+        badshape == {r \in 1..Len(rec.mat) : rec.mat[r] = <<>>}
+        badm == {r \in 1..Len(rec.mat) : rec.mat[r] # <<>> /\ ~MatrixOK(c, M, rec.mat[r], rec.neg[r])}
+        badk == {r \in 1..Len(rec.mat) : r \notin badshape \cup badm /\ rec.neg[r] /\ ~MarksOK(c, rec.mat[r], rec.d[r])}
         badd == {r \in 1..Len(rec.d) : rec.d[r] # e}
-    IN IF badd # {} THEN Fail(rec.id, rec.routes[SetMin(badd)] \o ":dist")
+        bads == {q \in 1..Len(rec.slices) : ~SliceOK(c, M, rec.slices[q])}
+    IN IF IsInf(Opt(c)) /\ ~LengthOK(c) THEN TRUE
+       ELSE IF badshape # {} THEN Fail(rec.id, rec.routes[SetMin(badshape)] \o ":raised")
+       ELSE IF badd # {} THEN Fail(rec.id, rec.routes[SetMin(badd)] \o ":dist")
        ELSE IF badm # {} THEN Fail(rec.id, rec.routes[SetMin(badm)] \o ":matrix")
+       ELSE IF badk # {} THEN Fail(rec.id, rec.routes[SetMin(badk)] \o ":marks")
+       ELSE IF bads # {} THEN Fail(rec.id, rec.slices[SetMin(bads)].route \o ":slice")
        ELSE TRUE
 
 ----------------------------------------------------------------------------
